@@ -153,19 +153,22 @@ type aMsg struct {
 }
 
 type aServer struct {
-	r         *aRun
-	l         *simnet.TCPListener
-	attempts  int
-	msgs      []*aMsg
-	ev        chan struct{}
-	stopped   bool
-	conns     []*simnet.TCPConn
-	decodeErr []string
-	pings     int
+	r           *aRun
+	l           *simnet.TCPListener
+	attempts    int
+	msgs        []*aMsg
+	ev          chan struct{}
+	stopped     bool
+	conns       []*simnet.TCPConn
+	decodeErr   []string
+	pings       int
+	addr        string
+	name        string // goroutine name prefix
+	healthyOnly bool   // never injects a fault (second output)
 }
 
 func newAServer(r *aRun) *aServer {
-	return &aServer{r: r, ev: make(chan struct{})}
+	return &aServer{r: r, ev: make(chan struct{}), addr: aUpstreamAddr, name: "fluentd"}
 }
 
 func (sv *aServer) notify() {
@@ -175,6 +178,9 @@ func (sv *aServer) notify() {
 
 func (sv *aServer) behaviour(i int) AUp {
 	r := sv.r
+	if sv.healthyOnly {
+		return AUp{Kind: "healthy"}
+	}
 	if i < len(r.s.Upstream) && simrt.Now() < ms(r.s.HealAtMs) {
 		return r.s.Upstream[i]
 	}
@@ -183,7 +189,7 @@ func (sv *aServer) behaviour(i int) AUp {
 
 func (sv *aServer) start() {
 	r := sv.r
-	sv.l = simnet.ListenHarness(aUpstreamAddr)
+	sv.l = simnet.ListenHarness(sv.addr)
 	sv.l.RxCap = r.s.UpRx
 	pendingBeh := map[string]AUp{}
 	_ = pendingBeh
@@ -207,7 +213,7 @@ func (sv *aServer) start() {
 		queueIdx = append(queueIdx, i)
 		return simnet.DialOutcome{Kind: simnet.DialAccept}
 	}
-	simrt.GoNamed("fluentd.accept", 0, func() {
+	simrt.GoNamed(sv.name+".accept", 0, func() {
 		n := 0
 		for {
 			c, err := sv.l.AcceptTCP()
@@ -219,7 +225,7 @@ func (sv *aServer) start() {
 			n++
 			ci := n
 			sv.conns = append(sv.conns, c)
-			simrt.GoNamed(fmt.Sprintf("fluentd.conn%d", ci), 0, func() { sv.serve(ci, ai, c, b) })
+			simrt.GoNamed(fmt.Sprintf("%s.conn%d", sv.name, ci), 0, func() { sv.serve(ci, ai, c, b) })
 		}
 	})
 }
